@@ -241,7 +241,7 @@ RoundTrip ==
                                  /\ \A r \in s.valid : r.c = "zoned" /\ r.win = 0
         [] x.expect = "refuse" -> ~s.silent /\ s.valid = {}
         [] x.expect = "soft" -> ~s.silent /\ s.valid # {} /\ \A r \in s.valid : r.soft
-        [] x.expect = "win" -> ~s.silent /\ s.valid # {} /\ \A r \in s.valid : r.win = 1
+        [] x.expect = "win" -> ~s.silent /\ s.valid # {} /\ \A r \in s.valid : r.win = 1 /\ r.soft
         [] x.expect = "silent" -> s.silent
 
 Emit == (stage = "done") => PrintT(<<"CASE", ToJson([q |-> q, mut |-> x.mut])>>)
